@@ -750,6 +750,25 @@ def tagD (ks : List Nat) (rs : List RdRes) (dataEmpty : Bool) : String :=
                 else if rs.any (fun r => r.err == some .err) then "err-seen" else "drained")
         ++ (if ks.any (· == 0) then "+zero-read" else "")
 
+/-- The plans the harness runs with `Runtime.Debug` on and a printable response type (the same predicate as
+`c12Dumped` in the harness): in-process wire, no request body, a response of an odd number of chunks that ends
+(EOF or error), a reader that reads to the end, no cancellation. `Submit` then dumps the response first
+(`httputil.DumpResponse`): the whole body is read before the reader sees a copy of it, and — when it ended
+with EOF — the dump closes it, so that the deferred `res.Body.Close()` is its SECOND close (harmless; the
+Spec asks for at least one). A body that ends with an error is left to the deferred close alone. Everything
+else the call shows is what `predict` says for a reader that reads to the end. -/
+def Plan.dumped (p : Plan) : Bool :=
+  !p.real && p.readN.isNone && p.cancelAt == .never && p.payload == .none && p.form == 0 && p.files.isEmpty &&
+  (match p.resp with
+   | .headers k .eof => k % 2 == 1
+   | .headers k .err => k % 2 == 1
+   | _ => false)
+
+def withDump (p : Plan) (o : Obs) : Obs :=
+  match p.resp with
+  | .headers _ .eof => if p.dumped then { o with bodyCloses := o.bodyCloses.map (· + 1) } else o
+  | _ => o
+
 def run (ins outs : List String) : Verdict :=
   match ins, outs with
   | _, ["PANIC", msg] => { agree := false, specOk := false, tag := "panic", model := "no panic expected; impl: " ++ msg }
@@ -765,7 +784,7 @@ def run (ins outs : List String) : Verdict :=
     match decPlan f, decObs outs with
     | some p, some o =>
       if decide p.WF then
-        let m := predict p
+        let m := withDump p (predict p)
         { agree := m == o, specOk := specF p o, tag := tagF p m, model := " ".intercalate m.render }
       else .bad "F plan outside WF"
     | _, _ => .bad "F fields"
